@@ -25,6 +25,7 @@ type c15case struct {
 	hdr            int // 0 none, 1 Content-Length: 0, 2 Grpc-Status: 1
 	retries        int
 	clientBreaksAt int  // >=0: the client connection breaks after that many body bytes were delivered
+	upgrade        bool // the request asks for a protocol upgrade (Connection: Upgrade) which the handler declines by answering normally
 	abort          bool // the handler aborts (panic http.ErrAbortHandler) after writing, as a forwarder does when its backend dies mid-body
 }
 
@@ -41,6 +42,9 @@ func (c c15case) String() string {
 	}
 	if c.side == "response" && c.clientBreaksAt >= 0 {
 		ab += fmt.Sprintf(" client-connection-breaks-after-%d-bytes", c.clientBreaksAt)
+	}
+	if c.upgrade {
+		ab += " request-asks-for-upgrade"
 	}
 	return fmt.Sprintf("response mem=%d max=%d size=%d writes=%s method=%s status=%d header=%s retries=%d%s", c.lim.mem, c.lim.max, c.size, writePatterns[c.chunk], c.method, c.status, respHdrs[c.hdr], c.retries, ab)
 }
@@ -191,7 +195,11 @@ func runC15(c c15case, rep *lib.Report) {
 				panic(http.ErrAbortHandler)
 			}
 		})
-		req, _ = lib.ParseRequest(lib.RawRequest(c.method, "/", nil, nil, 0))
+		var hs [][2]string
+		if c.upgrade {
+			hs = [][2]string{{"Connection", "keep-alive, Upgrade"}, {"Upgrade", "websocket"}}
+		}
+		req, _ = lib.ParseRequest(lib.RawRequest(c.method, "/", hs, nil, 0))
 	}
 	in, err := c15instanceFor(c, opts)
 	if err != nil {
@@ -336,6 +344,9 @@ func c15cases(tier string) []c15case {
 						for hdr := range respHdrs {
 							for _, retries := range []int{0, 1, 2} {
 								out = append(out, c15case{side: "response", lim: l, size: size, chunk: wp, method: method, status: status, hdr: hdr, retries: retries, clientBreaksAt: -1})
+								if method == "GET" && hdr == 0 && retries == 0 && (status == 200 || status == 500) {
+									out = append(out, c15case{side: "response", lim: l, size: size, chunk: wp, method: method, status: status, upgrade: true, clientBreaksAt: -1})
+								}
 							}
 						}
 					}
@@ -359,7 +370,7 @@ func c15cases(tier string) []c15case {
 func RunC15(tier string, sh lib.Shard, rep *lib.Report) {
 	cases := c15cases(tier)
 	rep.Bounds["cases"] = len(cases)
-	rep.Rule = "full product (memory threshold, maximum) in {(8,16),(16,16),(32,16),(8,unlimited)} x size {0,mem-1,mem,mem+1,max-1,max,max+1,2max} x request framing {declared, chunked 1/5, unknown length without chunking (HTTP/2 stream)} / response write pattern {one, straddling mem, straddling max, bytewise} x method x response status {200,204,304,500} x header {-,Content-Length:0,Grpc-Status:1} x retries {0,1,2}; long-lived Buffer instances (one per side x limits x retries) serving their cases in sequence; private $TMPDIR per worker inspected after every exchange; non-trivial = exchanges that spilled to disk or exceeded a limit"
+	rep.Rule = "full product (memory threshold, maximum) in {(8,16),(16,16),(32,16),(8,unlimited)} x size {0,mem-1,mem,mem+1,max-1,max,max+1,2max} x request framing {declared, chunked 1/5, unknown length without chunking (HTTP/2 stream)} / response write pattern {one, straddling mem, straddling max, bytewise} x method x response status {200,204,304,500} x header {-,Content-Length:0,Grpc-Status:1} x retries {0,1,2}, also for requests that ask for an upgrade which the handler declines; long-lived Buffer instances (one per side x limits x retries) serving their cases in sequence; private $TMPDIR per worker inspected after every exchange; non-trivial = exchanges that spilled to disk or exceeded a limit"
 	rep.Require("request_spills", "response_spills", "oversized_requests", "oversized_responses", "aborted_exchanges", "broken_client_connections")
 	for i, c := range cases {
 		if !sh.Mine(i) {
